@@ -128,7 +128,7 @@ Definition hold_ok (o : holder) (n : N) : Prop := forall k v, In (k, v) o -> ref
 Lemma hold_get_ok k o n : hold_ok o n -> ref_lt (hold_get k o) n.
 Proof.
   intro Hok. induction o as [|[j u] o IH]; cbn; [exact I|].
-  destruct (Z.eqb k j).
+  destruct (key_eqb k j).
   - apply (Hok j u). now left.
   - apply IH. intros x v Hin. apply (Hok x v). now right.
 Qed.
@@ -137,7 +137,7 @@ Lemma hold_put_ok k v o n : hold_ok o n -> ref_lt v n -> hold_ok (hold_put k v o
 Proof.
   intros Hok Hv. induction o as [|[j u] o IH]; cbn.
   - intros x w [E|[]]. inversion E; subst. exact Hv.
-  - destruct (Z.eqb k j).
+  - destruct (key_eqb k j).
     + intros x w [E|Hin]; [inversion E; subst; exact Hv|]. apply (Hok x w). now right.
     + intros x w [E|Hin]; [apply (Hok x w); now left|].
       apply (IH (fun a b H => Hok a b (or_intror H)) x w Hin).
@@ -146,7 +146,7 @@ Qed.
 Lemma hold_remove_ok k o n : hold_ok o n -> hold_ok (hold_remove k o) n.
 Proof.
   intros Hok. induction o as [|[j u] o IH]; cbn; [exact Hok|].
-  destruct (Z.eqb k j).
+  destruct (key_eqb k j).
   - intros x w Hin. apply (Hok x w). now right.
   - intros x w [E|Hin]; [apply (Hok x w); now left|].
     apply (IH (fun a b H => Hok a b (or_intror H)) x w Hin).
@@ -269,7 +269,7 @@ Proof.
     - intros x Hx. apply remove_h_in in Hx. now apply Hb.
     - exact Hok.
     - exact Hhp. }
-  destruct i as [m|d|x v|x k v|x k y|y x k|x y|x l|x|x k|args q]; cbn in Hsz.
+  destruct i as [m|d|x v|x k v|x k y|y x k|x y|x l|x|x k|x|args q]; cbn in Hsz.
   - cbn. apply IHn; [lia|exact Hinv|exact Henv].
   - (* wait *)
     cbn. split; [|lia]. unfold inv. cbn. split; [exact Hnd|]. split; [|split; [|split]].
@@ -299,6 +299,7 @@ Proof.
     + eapply inv_data; eauto.
     + cbn. apply env_set_ok; [eapply env_ok_mono; [|exact Henv]; lia | cbn; lia].
     + split; [exact H1|]. cbn in H2. lia.
+  - cbn. apply IHn; [lia|exact Hinv|exact Henv].
   - cbn. apply IHn; [lia|exact Hinv|exact Henv].
   - cbn. apply IHn; [lia|exact Hinv|exact Henv].
   - (* thread q *)
